@@ -144,7 +144,11 @@ def run(ctx, rep):
         if isinstance(st, ast.If) and cfg.branch_never_returns(cfg.node(st), True):
             consts = {n.value for n in ast.walk(st.test) if isinstance(n, ast.Constant)}
             if {"prepare_all", "measure_all"} <= consts:
-                refused = True
+                # polarity: the raise is taken when the name IS one of the two
+                pos = any(isinstance(n, ast.Compare) and len(n.ops) == 1 and isinstance(n.ops[0], (ast.In, ast.Eq)) for n in ast.walk(st.test))
+                neg = any(isinstance(n, ast.Compare) and len(n.ops) == 1 and isinstance(n.ops[0], (ast.NotIn, ast.NotEq)) for n in ast.walk(st.test)) or any(isinstance(n, ast.UnaryOp) and isinstance(n.op, ast.Not) for n in ast.walk(st.test))
+                if pos and not neg:
+                    refused = True
     if refused:
         rep.ok("C18.2", cons, "prepare_all / measure_all raise JaqalError", init.loc())
     else:
@@ -189,6 +193,16 @@ def run(ctx, rep):
                 rep.violation("C18.3", cons, f"`{ast.unparse(st)}` can store a variant under the key None (no suffix given): every stretched gate overwrites the previous one and the result holds a single entry {{None: ..}}; with an idle gate in the set `name + suffix` raises TypeError", f"{sg.path}:{st.lineno}", witness="stretched_gates({'Px': Px, 'H': H})")
             else:
                 rep.ok("C18.3", cons, "the key is always a gate name", f"{sg.path}:{st.lineno}")
+    # update=True returns the caller's table with the variants added, update=False only the variants
+    for st in iter_stmts(sg.body):
+        if isinstance(st, ast.If) and any(isinstance(m, ast.Name) and m.id == "update" for m in ast.walk(st.test)):
+            cons = construct_of(sg, "update-flag")
+            negated = any(isinstance(m, ast.UnaryOp) and isinstance(m.op, ast.Not) for m in ast.walk(st.test))
+            upd_in_body = any(isinstance(m, ast.Call) and isinstance(m.func, ast.Attribute) and m.func.attr == "update" for b in st.body for m in ast.walk(b))
+            if upd_in_body != negated:
+                rep.ok("C18.3", cons, "the input table is updated (and returned) exactly when update is set", f"{sg.path}:{st.lineno}")
+            else:
+                rep.violation("C18.3", cons, "the update flag is inverted: stretched_gates(gates) modifies and returns the caller's gate table, stretched_gates(gates, update=True) returns only the variants", f"{sg.path}:{st.lineno}")
     rebound = set(names_in(loop.target))
     for st in iter_stmts(loop.body):
         if isinstance(st, ast.Assign):
